@@ -376,7 +376,7 @@ func init() {
 		RuleText: "one Add/Remove/Flush history (distinct ids, re-adds after removal, Gaussian / lattice / duplicate / near-tie vectors, 3 metrics, random M / ef / nlist / PQ M / nbits<=4) applied to flat, HNSW, IVF, PQ, IVFPQ side by side; single-query searches over k in Z, data-derived thresholds, id restrictions, nprobes and efSearch overrides; node-id queries next to the stored-vector query; multi-query searches (2-4 queries x sum/max/mean) next to their per-query answers; searches before/after Flush for the exhaustive kinds; non-trivial = a removal succeeded AND some search returned hits; distinct = distinct request streams",
 		NCases: func(tier string) int {
 			if tier == "thorough" {
-				return 3000
+				return 15000
 			}
 			return 250
 		},
